@@ -192,4 +192,26 @@ PROPS = {
                                  "class:degenerate_constructed": 0.1, "class:badly_scaled": 0.1, "active_set:mixed": 0.3}},
         assumptions=["uniqueness of the minimiser (A positive definite by construction)"],
     ),
+    "C10": dict(
+        level="exploration",
+        level_text="Generated monotonic fits (1..3 dims, orders 1..4, every choice of monotonic dimension, adversarial data shapes: decreasing, oscillating, noisy, step, constant; sparse; varying and zero weights; smoothing 0..1e6) must return coefficients that are non-decreasing along the monotonic dimension in every fibre (compared exactly in float) and a non-negative derivative along it in the fully supported region; when the data come from a spline with positive increasing coefficients (constraint inactive) the monotonic fit must reproduce the unconstrained solution to single precision. Each fit runs in a forked child under a watchdog.",
+        level_note="Whether the constraint is active is decided from the independent long-double reference solution of C09. Thread schedules are C12's dimension (OMP_NUM_THREADS=2 here).",
+        technique="property-based testing (rapidcheck, fork-isolated) with an invariant oracle and a reference-model oracle for the inactive case",
+        units=[U("c10_mono", "c10_mono.cpp", quick=900, thorough=120000, names=["monotone_any_data", "inactive_constraint"])],
+        rule="Non-trivial: the constraint is active (the unconstrained reference solution violates non-negativity or monotonicity), or the inactive-constraint sub-property; "
+             "distinct = hash(monodim, orders, knots, data, weights).",
+        essential={"monotone_any_data": {"constraint:active": 0.2, "monodim:interior": 0.03, "sparse": 0.1}, "inactive_constraint": {"constraint:inactive": 0.9}},
+        assumptions=["reference normal equations of C09 (fitgen.hpp)"],
+    ),
+    "C13": dict(
+        level="exploration",
+        level_text="A valid small fit problem is damaged by 1..3 invalidations drawn from the property's catalogue (weights / coordinate / order / knot-vector / smoothing / penalty container lengths off by one or empty, data index beyond its range, range beyond the coordinate vector, unsorted knots, too few knots, huge orders, penalty order above the spline order, monotonic dimension out of range) or left valid (20 %); the call runs in a forked child under ASan/UBSan. Listed inconsistencies must throw (C wrapper: non-zero), leave the table empty and reusable (a following valid fit must equal a fresh object's result bit for bit); a penalty order above the order must be rejected or act as a vanishing penalty (compared with the zero-smoothing fit); valid arguments must not be rejected.",
+        level_note="The C wrapper is exercised only with invalidations it can express (it takes lengths from the data). Empty data sets are not generated (not in the catalogue).",
+        technique="property-based testing (rapidcheck, fork-isolated under ASan/UBSan) with a must-reject / must-accept oracle",
+        units=[U("c13_fitargs", "c13_fitargs.cpp", quick=2500, thorough=400000, names=["fit_arguments"])],
+        rule="Non-trivial: exactly one invalidation (so a missing check cannot be masked by another one firing first); distinct = hash(invalidation kind, data, knots, monodim).",
+        essential={"fit_arguments": {"valid_arguments": 0.1, "inv:range_beyond_coords": 0.03, "inv:too_few_knots": 0.03, "inv:penalty_above_order": 0.03, "inv:index_beyond_range": 0.03,
+                                     "inv:knots_unsorted": 0.02, "inv:huge_order": 0.02, "inv:monodim_out_of_range": 0.03, "inv:weights_length": 0.03, "via:C": 0.03}},
+        assumptions=["reference normal equations (fitgen.hpp) decide whether a valid problem is well-posed"],
+    ),
 }
